@@ -255,6 +255,14 @@ Definition hg_create_conn (ms : hg_members) (index : Z) : option Z :=
          end
   end.
 
+(* the endpoint id of a member (HTTPGroup.Register, repair e71b6d4): proxy name + "#" + the number of this join,
+   counted over all http groups; chooseEndpoint hands out the id, createConnByEndpoint resolves it.  [dec] is
+   strconv.FormatUint (Model/HttpRewrite.v hr_dec). *)
+Definition hg_endpoint_id (dec : Z -> bytes) (name : bytes) (join : Z) : bytes := name ++ [x23] ++ dec join.
+Definition hg_endpoint_shape_ok (endpoint_expr choose_returns : string) : bool :=
+  String.eqb endpoint_expr "proxyName + ""#"" + strconv.FormatUint(atomic.AddUint64(&httpGroupJoinSeq, 1), 10)" &&
+  String.eqb choose_returns "g.endpoints[g.pxyNames[int(newIndex)%len(g.pxyNames)]]".
+
 (* how the Rewrite closure binds the chosen endpoint (translator unit t9gr, gen/GenGroupGlue.v):
    the token of the statement that calls ChooseEndpointFn ("=" assigns the closure's `endpoint` variable,
    ":=" would declare a new one), whether that statement's first target is `endpoint`, whether the URL.Host
